@@ -2,6 +2,7 @@ import RbV.Basic.Codec
 import RbV.Ref.BS
 import RbV.Model.LFMapping
 import RbV.Model.LFSortedCheck
+import RbV.Model.SampledSA
 /-! Driver for property C05: FM-index backward search.
 
 `c05 <s1>/<s2>/… a:<alphabet> k:<occ rate> s:<sa sampling> m:<o|b|a> <p1>/<p2>/… => <sa> <r1>/<r2>/…`
@@ -76,6 +77,20 @@ def modelAgrees (t sa : List Nat) (pats : List (List Nat)) (obs : List Obs) : Bo
   (pats.zip obs).all (fun (p, o) =>
     BSModel.backwardSearch (LF.lessRef bwt) (LF.occRef bwt) sa.length p == o.res)
 
+/-- mirror model of `SampledSuffixArray::get` on the first rows of every reported interval against the positions
+the implementation resolved through its sampled array (`none` = not evaluated: too expensive) -/
+def sampledModelAgrees (t sa : List Nat) (s : Nat) (obs : List Obs) : Option Bool :=
+  if s > 16 && sa.length > 130 then none else
+  let bwt := LF.bwtOf t sa
+  let sent := t.getD (t.length - 1) 0
+  let get := SampledModel.get s bwt sent (LF.lessRef bwt) (LF.occRef bwt)
+    (fun q => sa.getD (q * s) 0) (fun pos => sa.getD pos 0) sa.length
+  some (obs.all (fun o =>
+    match o.res, o.samp with
+    | .complete lo _, some g => ((g.take 6).zipIdx).all (fun (v, i) => get (lo + i) == some v)
+    | .part lo _ _, some g => ((g.take 6).zipIdx).all (fun (v, i) => get (lo + i) == some v)
+    | _, _ => true))
+
 def kindTag : BSRes → String
   | .complete _ _ => "complete"
   | .part _ _ _ => "partial"
@@ -105,7 +120,9 @@ def verdict (toks : List String) (out : String) : String :=
               let kinds := obs.map (fun o => kindTag o.res)
               let nt := (pats.zip obs).any (fun (p, o) => p.length ≥ 2 && o.res != .absent)
               "ok" ++ tagIf nt "nt" ++ (if modelAgrees t sa pats obs then " model=impl" else " drift")
-                ++ (if LF.sortedAllB t sa then " lf-sorted" else " not-lf-sorted") ++ tagIf (kinds.contains "complete") "complete"
+                ++ (if LF.sortedAllB t sa then " lf-sorted" else " not-lf-sorted")
+                ++ (match sampledModelAgrees t sa sN obs with
+                    | some true => " sampled-model=impl" | some false => " sampled-drift" | none => "") ++ tagIf (kinds.contains "complete") "complete"
                 ++ tagIf (kinds.contains "partial") "partial" ++ tagIf (kinds.contains "absent") "absent"
                 ++ tagIf (seqs.length ≥ 2) "multi-sentinel" ++ tagIf (seqs.any (·.isEmpty)) "empty-seq"
                 ++ tagIf (kN > 64) "k>64" ++ tagIf (kN = 64) "k=64" ++ tagIf (kN < 64) "k<64"
